@@ -1955,13 +1955,7 @@ func (c *Cache) additionalAnswer(ctx context.Context, msg *dns.Msg) *dns.Msg {
 			if opt := msg.IsEdns0(); opt != nil {
 				do = opt.Do()
 			}
-			return dnsutil.SetRcodeWithEDE(
-				msg,
-				dns.RcodeServerFailure,
-				do,
-				edeCode,
-				edeText,
-			)
+			return servfailWithEDE(msg, do, edeCode, edeText)
 		}
 		if errors.Is(err, middleware.ErrResolutionAttemptLimit) {
 			edeCode, edeText := dnsutil.ErrorToEDE(err)
@@ -1969,13 +1963,7 @@ func (c *Cache) additionalAnswer(ctx context.Context, msg *dns.Msg) *dns.Msg {
 			if opt := msg.IsEdns0(); opt != nil {
 				do = opt.Do()
 			}
-			out := dnsutil.SetRcodeWithEDE(
-				msg,
-				dns.RcodeServerFailure,
-				do,
-				edeCode,
-				edeText,
-			)
+			out := servfailWithEDE(msg, do, edeCode, edeText)
 			middleware.MarkRequestLocalFailureResponse(ctx, out, err)
 			return out
 		}
@@ -2016,16 +2004,7 @@ func (c *Cache) additionalAnswer(ctx context.Context, msg *dns.Msg) *dns.Msg {
 			if ede := dnsutil.GetEDE(respCname); ede != nil {
 				edeCode, edeText = ede.InfoCode, ede.ExtraText
 			}
-			out := dnsutil.SetRcodeWithEDE(msg, dns.RcodeServerFailure, do, edeCode, edeText)
-			if out.IsEdns0() == nil {
-				// A message rebuilt from a cache entry carries no OPT
-				// (admission strips it; the edns writer attaches the
-				// client's), so the error had nowhere to go. Give it one:
-				// the writer keeps extended errors of a response OPT and
-				// drops the OPT altogether for a client without EDNS.
-				out.SetEdns0(dnsutil.DefaultMsgSize, do)
-				dnsutil.SetEDE(out, edeCode, edeText)
-			}
+			out := servfailWithEDE(msg, do, edeCode, edeText)
 			if localErr := middleware.RequestLocalFailureForResponse(ctx, respCname); localErr != nil {
 				middleware.MarkRequestLocalFailureResponse(ctx, out, localErr)
 			}
@@ -2069,6 +2048,21 @@ func (c *Cache) additionalAnswer(ctx context.Context, msg *dns.Msg) *dns.Msg {
 	}
 
 	return msg
+}
+
+// servfailWithEDE turns msg into the SERVFAIL that ends an alias chase,
+// carrying the extended error that says why. A message rebuilt from a cache
+// entry carries no OPT (admission strips it; the edns writer attaches the
+// client's), so the error would have nowhere to go. Give it one: the writer
+// keeps extended errors of a response OPT and drops the OPT altogether for a
+// client without EDNS.
+func servfailWithEDE(msg *dns.Msg, do bool, edeCode uint16, edeText string) *dns.Msg {
+	out := dnsutil.SetRcodeWithEDE(msg, dns.RcodeServerFailure, do, edeCode, edeText)
+	if out.IsEdns0() == nil {
+		out.SetEdns0(dnsutil.DefaultMsgSize, do)
+		dnsutil.SetEDE(out, edeCode, edeText)
+	}
+	return out
 }
 
 // respCnameHasType reports whether the CNAME-chase response
